@@ -67,50 +67,12 @@ Definition lower_to_full (ab : arr) : arr :=
                (fun r c => if r <? R - 1 then get ab (R - 1 - r) c else get ab (r - (R - 1)) c) in
   shift_rows pre (R - 1) 0.
 
-(* list-of-rows literal -> array (for operation arguments and the correspondence) *)
-Definition of_rows (l : list (list Z)) : arr :=
-  mkarr (Z.of_nat (length l)) (Z.of_nat (length (hd [] l)))
-        (fun r c => nth (Z.to_nat c) (nth (Z.to_nat r) l []) 0).
-
-(* _add_diagonals(array_1, array_2, lower_only) on 2-D inputs; None = ValueError *)
-Definition add_arr (a b : arr) : arr := mkarr (nr a) (nc a) (fun r c => get a r c + get b r c).
-Definition pad_rows (a : arr) (top bottom : Z) : arr :=
-  mkarr (top + nr a + bottom) (nc a)
-        (fun r c => if (top <=? r) && (r <? top + nr a) then get a (r - top) c else 0).
-Definition add_diagonals (a b : arr) (lower_only : bool) : option arr :=
-  if negb (nc a =? nc b) then None
-  else
-    let mm := nr a - nr b in
-    if mm =? 0 then Some (add_arr a b)
-    else
-      let am := Z.abs mm in
-      if lower_only then
-        (if 0 <? mm then Some (add_arr a (pad_rows b 0 am)) else Some (add_arr (pad_rows a 0 am) b))
-      else if Z.odd am then None
-      else
-        let h := am / 2 in
-        if 0 <? mm then Some (add_arr a (pad_rows b h h)) else Some (add_arr (pad_rows a h h) b).
-
-Definition set_row (a : arr) (i : Z) (f : Z -> Z) : arr :=
-  mkarr (nr a) (nc a) (fun r c => if r =? i then f c else get a r c).
-
 (* ---- PenalizedSystem ---- *)
 Record cfg := { c_lam : Z; c_d : nat; c_allow_lower : bool; c_rev : option bool;
                 c_allow_penta : bool; c_pad : Z }.
 
-(* The two array attributes are modelled as CONTENT plus the IDENTITY of the memory buffer the
-   attribute refers to: [s_obuf] / [s_pbuf] are buffer ids of original_diagonals / penalty, [s_next]
-   is the next unused id.  A NumPy operation that allocates (diff_penalty_diagonals, np.concatenate,
-   _lower_to_full, every binary operation such as lam * a or a + b, .copy()) takes a fresh id; a view
-   (a[::-1], a[k:]) or returning the argument itself (_pad_diagonals with padding <= 0) keeps the id.
-   penalty and original_diagonals share memory iff the ids are equal; an in-place write through
-   penalty is then also a write into original_diagonals (see [write_pen]).
-   [s_maind] is main_diagonal (a .copy() of the main-diagonal row made by _update_bands). *)
 Record sys := { s_d : nat; s_lower : bool; s_rev : bool; s_penta : bool;
-                s_orig : arr; s_pen : arr; s_lam : Z; s_num_bands : Z; s_main : Z;
-                s_maind : Z -> Z; s_obuf : Z; s_pbuf : Z; s_next : Z }.
-
-Definition aliased (s : sys) : bool := s_pbuf s =? s_obuf s.
+                s_orig : arr; s_pen : arr; s_lam : Z; s_num_bands : Z; s_main : Z }.
 
 Definition want_penta (has_penta : bool) (c : cfg) : bool :=
   c_allow_penta c && has_penta && (Z.of_nat (c_d c) =? 2).
@@ -128,145 +90,53 @@ Definition convert (s : sys) (lower_only needs_reversed : bool) : arr :=
             else if negb (s_lower s) && lower_only then drop_rows (Z.of_nat (s_d s)) o0
             else o0 in
   if needs_reversed then rev_rows o1 else o1.
-(* ... and the buffer the converted diagonals live in: only _lower_to_full allocates *)
-Definition convert_allocates (s : sys) (lower_only : bool) : bool := s_lower s && negb lower_only.
 
-(* the tail of reset_diagonals:
-     self.penalty = self.lam * _pad_diagonals(self.original_diagonals, padding, self.lower)
-     self._update_bands()
-   [elide lam] = true would mean "the multiplication by lam is skipped for this lam" (then penalty
-   is whatever _pad_diagonals returned: for padding <= 0 the original_diagonals object itself).
-   The code multiplies always: [finish] below is [finish_g (fun _ => false)]. *)
-Definition finish_g (elide : Z -> bool) (d : nat) (lower_only rev penta : bool) (orig : arr)
-    (obuf next : Z) (lam padding : Z) : sys :=
-  let padded := pad_diagonals orig padding lower_only in
-  let padbuf := if 0 <? padding then next else obuf in
-  let next1 := if 0 <? padding then next + 1 else next in
-  let pen := if elide lam then padded else scale lam padded in
-  let pbuf := if elide lam then padbuf else next1 in
-  let next2 := if elide lam then next1 else next1 + 1 in
+Definition finish (d : nat) (lower_only rev penta : bool) (orig : arr) (lam padding : Z) : sys :=
+  let pen := scale lam (pad_diagonals orig padding lower_only) in
   let nb := if lower_only then nr pen - 1 else nr pen / 2 in
-  let mi := if lower_only then 0 else nb in
   {| s_d := d; s_lower := lower_only; s_rev := rev; s_penta := penta; s_orig := orig;
-     s_pen := pen; s_lam := lam; s_num_bands := nb; s_main := mi;
-     s_maind := fun c => get pen mi c; s_obuf := obuf; s_pbuf := pbuf; s_next := next2 |}.
+     s_pen := pen; s_lam := lam; s_num_bands := nb; s_main := if lower_only then 0 else nb |}.
 
 (* reset_diagonals; None = the call raised (state is then left as it was by the caller) *)
-Definition reset_g (elide : Z -> bool) (has_penta : bool) (N : nat) (prev : option sys) (c : cfg)
-  : option sys :=
+Definition reset (has_penta : bool) (N : nat) (prev : option sys) (c : cfg) : option sys :=
   let penta := want_penta has_penta c in
   let lower_only := want_lower has_penta c in
   let rev := want_rev has_penta c in
-  let next0 := match prev with Some s => s_next s | None => 0 end in
   let fresh :=
     match dpd_core N (c_d c) lower_only with
-    | DpdOk a => Some (maybe_rev rev a, next0, next0 + 1)
+    | DpdOk a => Some (maybe_rev rev a)
     | _ => None
     end in
   let orig :=
     match prev with
     | None => fresh
-    | Some s => if negb (Nat.eqb (s_d s) (c_d c)) then fresh
-                else Some (convert s lower_only rev,
-                           (if convert_allocates s lower_only then next0 else s_obuf s),
-                           (if convert_allocates s lower_only then next0 + 1 else next0))
+    | Some s => if negb (Nat.eqb (s_d s) (c_d c)) then fresh else Some (convert s lower_only rev)
     end in
   match orig with
-  | Some (o, obuf, next) =>
-      if 0 <? c_lam c
-      then Some (finish_g elide (c_d c) lower_only rev penta o obuf next (c_lam c) (c_pad c))
-      else None
+  | Some o => if 0 <? c_lam c then Some (finish (c_d c) lower_only rev penta o (c_lam c) (c_pad c))
+              else None
   | None => None
   end.
 
-Definition no_elision (_ : Z) : bool := false.
-Definition finish := finish_g no_elision.
-Definition reset := reset_g no_elision.
+Inductive op := Reset (c : cfg) | Reverse.
 
-(* Operations on a system: the two reconfigurations, and every way the code writes self.penalty:
-   add_diagonal (in place), add_penalty (re-binds to a new array + _update_bands), an in-place
-   overwrite of the array that add_diagonal returned (solve(..., overwrite_ab=True) hands it to
-   LAPACK, which stores the factorisation in it), and re-binding the attribute (mpspline). *)
-Inductive op :=
-  | Reset (c : cfg)
-  | Reverse
-  | AddDiag (w : list Z)
-  | AddPen (p : list (list Z))
-  | Clobber (v : list (list Z))
-  | SetPen (v : list (list Z)).
-
-(* reverse_penalty: raises (state unchanged) when lower; [::-1] are views (same buffers);
-   main_diagonal / num_bands are not touched *)
+(* reverse_penalty: raises (state unchanged) when lower *)
 Definition reverse_penalty (s : sys) : sys :=
   if s_lower s then s
   else {| s_d := s_d s; s_lower := s_lower s; s_rev := negb (s_rev s); s_penta := s_penta s;
           s_orig := rev_rows (s_orig s); s_pen := rev_rows (s_pen s); s_lam := s_lam s;
-          s_num_bands := s_num_bands s; s_main := s_main s;
-          s_maind := s_maind s; s_obuf := s_obuf s; s_pbuf := s_pbuf s; s_next := s_next s |}.
+          s_num_bands := s_num_bands s; s_main := s_main s |}.
 
-(* an in-place write through self.penalty: the new content is seen through every attribute that
-   refers to the same buffer *)
-Definition write_pen (s : sys) (p : arr) : sys :=
-  {| s_d := s_d s; s_lower := s_lower s; s_rev := s_rev s; s_penta := s_penta s;
-     s_orig := if aliased s then p else s_orig s; s_pen := p; s_lam := s_lam s;
-     s_num_bands := s_num_bands s; s_main := s_main s;
-     s_maind := s_maind s; s_obuf := s_obuf s; s_pbuf := s_pbuf s; s_next := s_next s |}.
-
-(* self.penalty = <newly allocated array> *)
-Definition bind_pen (s : sys) (p : arr) : sys :=
-  {| s_d := s_d s; s_lower := s_lower s; s_rev := s_rev s; s_penta := s_penta s;
-     s_orig := s_orig s; s_pen := p; s_lam := s_lam s;
-     s_num_bands := s_num_bands s; s_main := s_main s;
-     s_maind := s_maind s; s_obuf := s_obuf s; s_pbuf := s_next s; s_next := s_next s + 1 |}.
-
-(* _update_bands *)
-Definition update_bands (s : sys) : sys :=
-  let nb := if s_lower s then nr (s_pen s) - 1 else nr (s_pen s) / 2 in
-  let mi := if s_lower s then 0 else nb in
-  let p := s_pen s in
-  {| s_d := s_d s; s_lower := s_lower s; s_rev := s_rev s; s_penta := s_penta s;
-     s_orig := s_orig s; s_pen := s_pen s; s_lam := s_lam s;
-     s_num_bands := nb; s_main := mi;
-     s_maind := fun c => get p mi c; s_obuf := s_obuf s; s_pbuf := s_pbuf s; s_next := s_next s |}.
-
-(* add_diagonal(value): self.penalty[self.main_diagonal_index] = self.main_diagonal + value, with
-   NumPy broadcasting of a length-1 value; any other length mismatch raises before the store *)
-Definition add_diagonal (s : sys) (w : list Z) : sys :=
-  let L := Z.of_nat (length w) in
-  if (L =? nc (s_pen s)) || (L =? 1) then
-    let wf := fun c => if L =? 1 then nth 0 w 0 else nth (Z.to_nat c) w 0 in
-    let md := s_maind s in
-    write_pen s (set_row (s_pen s) (s_main s) (fun c => md c + wf c))
-  else s.
-
-(* add_penalty(penalty): raises (state unchanged) when _add_diagonals raises *)
-Definition add_penalty (s : sys) (p : arr) : sys :=
-  match add_diagonals (s_pen s) p (s_lower s) with
-  | Some q => update_bands (bind_pen s q)
-  | None => s
-  end.
-
-(* self.penalty[...] = v  with v of the same shape (what an overwriting solver does) *)
-Definition clobber (s : sys) (v : arr) : sys :=
-  if (nr v =? nr (s_pen s)) && (nc v =? nc (s_pen s)) then write_pen s v else s.
-
-Definition step_g (elide : Z -> bool) (has_penta : bool) (N : nat) (s : sys) (o : op) : sys :=
+Definition step (has_penta : bool) (N : nat) (s : sys) (o : op) : sys :=
   match o with
-  | Reset c => match reset_g elide has_penta N (Some s) c with Some s' => s' | None => s end
+  | Reset c => match reset has_penta N (Some s) c with Some s' => s' | None => s end
   | Reverse => reverse_penalty s
-  | AddDiag w => add_diagonal s w
-  | AddPen p => add_penalty s (of_rows p)
-  | Clobber v => clobber s (of_rows v)
-  | SetPen v => bind_pen s (of_rows v)
   end.
 
-Definition run_g (elide : Z -> bool) (has_penta : bool) (N : nat) (s : sys) (ops : list op) : sys :=
-  fold_left (step_g elide has_penta N) ops s.
-
-Definition step := step_g no_elision.
-Definition run := run_g no_elision.
+Definition run (has_penta : bool) (N : nat) (s : sys) (ops : list op) : sys :=
+  fold_left (step has_penta N) ops s.
 
 (* observable state, for the correspondence check *)
 Definition observe (s : sys) :=
   (Z.of_nat (s_d s), s_lower s, s_rev s, s_penta s, s_num_bands s, s_main s,
-   tab (s_orig s), tab (s_pen s), map (s_maind s) (zrange 0 (nc (s_pen s))), aliased s).
+   tab (s_orig s), tab (s_pen s)).
